@@ -68,6 +68,8 @@ def verify(chk, name, function, run, post, clause=None, replay=None, encoding="q
             chk.add_cover("%s.reachable" % tag, hyps, z3.BoolVal(True), function)
     if npaths == 0:
         chk.notes.append("%s: every path raises" % name)
+    elif clause is not None:
+        chk.bridge(clause, name, function)
     return results
 
 
